@@ -97,6 +97,33 @@ def shape_rule(repo: Repo, rep: Report, tier: str, fn: Callable[..., Any], rid: 
     return fallback_rule(repo, rep, fold_decides(repo, tier), "the compiled-reader fold", fn, rid, *args, **kw)
 
 
+def fallback_block(repo: Repo, rep: Report, decided: bool, by: str, fn: Callable[..., Any], *args: Any, skip: tuple[str, ...] = (), **kw: Any) -> Any:
+    """Like fallback_rule for a function that registers several rules: where a fold of the outcome decides, every rule the block registers becomes
+    an advisory (its failures are notes); rules named in ``skip`` are left to the caller."""
+    if not decided:
+        return fn(repo, rep, *args, **kw)
+    scratch = Report(rep.prop, rep.tier)
+    result = None
+    try:
+        result = fn(repo, scratch, *args, **kw)
+    except AnalysisError as e:
+        rep.notes.append(f"advisory (shape rules; {by} decides): anchor not found: {e}")
+    except Exception as e:  # noqa: BLE001 - a shape rule that cannot cope with a reorganised function is not the deciding one here
+        rep.notes.append(f"advisory (shape rules; {by} decides): not applicable to this shape ({type(e).__name__})")
+    for rid, desc in scratch.rules_desc.items():
+        if rid in skip:
+            continue
+        rep.rule(rid, desc + f" [fallback: applies when {by} cannot interpret the code; otherwise advisory]")
+        fails = [i for i in scratch.items if not i.ok and i.rule == rid]
+        for i in fails[:3]:
+            rep.notes.append(f"advisory {rid}: {i.construct}: {i.detail[:200]}")
+        n = sum(1 for i in scratch.items if i.rule == rid)
+        rep.ok(rid, f"shape:{rid.split('.')[1]}", f"{by} decides ({n} shape obligations looked at, {len(fails)} advisory remarks)", "", nontrivial=False)
+    for k_, v in scratch.info.items():
+        rep.info.setdefault(k_, v)
+    return result
+
+
 def fallback_rule(repo: Repo, rep: Report, decided: bool, by: str, fn: Callable[..., Any], rid: str, *args: Any, **kw: Any) -> Any:
     """Run a rule on the shape of a generator; where a fold of the generator's outcome decides, only as an advisory."""
     if not decided:
